@@ -140,13 +140,21 @@ Definition r_phi {R} (s : list (op * reply) * arch * outcome R * list fault) := 
 Definition out_code {R} (summ : R -> list N) (o : outcome R) : list N :=
   match o with Done r => 0 :: summ r | Crashed => [1] | Panicked => [2] end.
 
-(* 0 = agree; 1 = outcomes differ; 1000+i = traces differ at index i *)
+(* operations one actor issues concurrently (block sub-directory listings, block reads of
+   validate): when one of them is made to fail, how many of its siblings still run is a
+   scheduling accident, so they are left out of the comparison in that case *)
+Definition is_group_step (x : op * reply) : bool :=
+  match fst x with OpList (DBlockSub _) => true | _ => false end.
+
+(* mode 0: whole trace; 1: mutating operations only (killed runs); 2: all but concurrent groups.
+   0 = agree; 1 = outcomes differ; 1000+i = traces differ at index i *)
 Definition check_run {R} (summ : R -> list N) (s : list (op * reply) * arch * outcome R * list fault)
-           (impl_tr : list (op * reply)) (mut_only : bool) (impl_out : list N) : N :=
-  let tr := r_trace s in
-  let mt := if mut_only then filter is_mut_step tr else tr in
-  let it := if mut_only then filter is_mut_step impl_tr else impl_tr in
-  match trace_diff mt it 0 with
+           (impl_tr : list (op * reply)) (mode : N) (impl_out : list N) : N :=
+  let sel (t : list (op * reply)) :=
+    if N.eqb mode 1 then filter is_mut_step t
+    else if N.eqb mode 2 then filter (fun x => negb (is_group_step x)) t
+    else t in
+  match trace_diff (sel (r_trace s)) (sel impl_tr) 0 with
   | Some i => 1000 + i
   | None => if list_eqb N.eqb (out_code summ (r_out s)) impl_out then 0 else 1
   end.
